@@ -43,11 +43,19 @@ func (f *Frame) instr(in ssa.Instruction) {
 			if f.reach[p] == "" {
 				continue
 			}
-			g.assume(implies(f.edgeCond(p, b), eq(n, f.val(in.Edges[i]).S)))
+			g.assumeDef(n, implies(f.edgeCond(p, b), eq(n, f.val(in.Edges[i]).S)))
 		}
 		f.vals[in] = v
 	case *ssa.Alloc:
-		f.define(in, f.newObject(in.Type().Underlying().(*types.Pointer).Elem(), in.Comment))
+		et := in.Type().Underlying().(*types.Pointer).Elem()
+		if privateAlloc(in) {
+			v := f.newObjectNoInit(et, in.Comment)
+			v.Place = &Place{Kind: 5, Ptr: v.S, Priv: f.privKey(in)}
+			f.vals[in] = v
+			f.storeAt(v.Place, g.zero(et), et)
+			return
+		}
+		f.define(in, f.newObject(et, in.Comment))
 	case *ssa.BinOp:
 		f.define(in, f.binop(in, in.Op, f.val(in.X), f.val(in.Y), in.Type()))
 	case *ssa.UnOp:
@@ -82,7 +90,11 @@ func (f *Frame) instr(in ssa.Instruction) {
 		ptr := fmt.Sprintf("(mk-ptr (obj %s) (fld (path %s) %d))", x.S, x.S, in.Field)
 		v := Val{S: ptr, Sort: "Ptr", GT: in.Type()}
 		v = f.define(in, v)
-		v.Place = &Place{Kind: 1, Ptr: v.S, Base: x.S, Named: pt.Elem(), Struct: pt.Elem().Underlying().(*types.Struct), Idx: in.Field}
+		if x.Place != nil && x.Place.Kind == 5 {
+			v.Place = &Place{Kind: 5, Ptr: v.S, Priv: fmt.Sprintf("%s.%d", x.Place.Priv, in.Field)}
+		} else {
+			v.Place = &Place{Kind: 1, Ptr: v.S, Base: x.S, Named: pt.Elem(), Struct: pt.Elem().Underlying().(*types.Struct), Idx: in.Field}
+		}
 		f.vals[in] = v
 	case *ssa.IndexAddr:
 		f.indexAddr(in)
@@ -200,19 +212,104 @@ func (f *Frame) newObjID() string {
 	g := f.g
 	a := f.alloc()
 	n := g.freshConst("alloc", "Int")
-	g.assume(eq(n, app("+", a, "1")))
+	g.assumeDef(n, eq(n, app("+", a, "1")))
 	f.cur.set("$alloc", n)
 	return fmt.Sprintf("(mk-ptr %s root)", n)
+}
+
+func (f *Frame) privKey(a *ssa.Alloc) string {
+	return "L|" + f.sfx + "|" + a.Name()
+}
+
+// privateAlloc: a local whose address is only used for field selection, loads and stores in its
+// own function. Such cells get private heap keys and never interfere with the shared heap maps.
+func privateAlloc(a *ssa.Alloc) bool {
+	et := a.Type().Underlying().(*types.Pointer).Elem()
+	if containsArray(et) {
+		return false
+	}
+	var ok func(v ssa.Value) bool
+	ok = func(v ssa.Value) bool {
+		for _, r := range *v.Referrers() {
+			switch r := r.(type) {
+			case *ssa.DebugRef:
+			case *ssa.UnOp:
+				if r.Op != token.MUL {
+					return false
+				}
+			case *ssa.Store:
+				if r.Val == v {
+					return false
+				}
+			case *ssa.FieldAddr:
+				if !ok(r) {
+					return false
+				}
+			default:
+				return false
+			}
+		}
+		return true
+	}
+	return ok(a)
+}
+
+func containsArray(t types.Type) bool {
+	switch u := t.Underlying().(type) {
+	case *types.Array:
+		return true
+	case *types.Struct:
+		for i := 0; i < u.NumFields(); i++ {
+			if containsArray(u.Field(i).Type()) {
+				return true
+			}
+		}
+	}
+	return false
+}
+
+// privRoot walks a FieldAddr chain back to a private Alloc.
+func privRoot(addr ssa.Value) (*ssa.Alloc, string, bool) {
+	path := ""
+	for {
+		switch a := addr.(type) {
+		case *ssa.FieldAddr:
+			path = fmt.Sprintf(".%d", a.Field) + path
+			addr = a.X
+		case *ssa.Alloc:
+			if privateAlloc(a) {
+				return a, path, true
+			}
+			return nil, "", false
+		default:
+			return nil, "", false
+		}
+	}
+}
+
+func (f *Frame) newObjectNoInit(t types.Type, comment string) Val {
+	g := f.g
+	p := f.newObjID()
+	n := g.freshConst("obj_"+comment, "Ptr")
+	g.assumeDef(n, eq(n, p))
+	return Val{S: n, Sort: "Ptr", GT: types.NewPointer(t)}
 }
 
 func (f *Frame) newObject(t types.Type, comment string) Val {
 	g := f.g
 	p := f.newObjID()
 	n := g.freshConst("obj_"+comment, "Ptr")
-	g.assume(eq(n, p))
+	g.assumeDef(n, eq(n, p))
 	v := Val{S: n, Sort: "Ptr", GT: types.NewPointer(t), Place: &Place{Kind: 3, Ptr: n}}
 	f.storeAt(v.Place, g.zero(t), t)
 	return v
+}
+
+func (g *Gen) subPlace(parent *Place, named types.Type, idx int) *Place {
+	if parent.Kind == 5 {
+		return &Place{Kind: 5, Ptr: fmt.Sprintf("(mk-ptr (obj %s) (fld (path %s) %d))", parent.Ptr, parent.Ptr, idx), Priv: fmt.Sprintf("%s.%d", parent.Priv, idx)}
+	}
+	return g.fieldPlace(parent.Ptr, named, idx)
 }
 
 func (g *Gen) fieldPlace(base string, named types.Type, idx int) *Place {
@@ -240,7 +337,7 @@ func (g *Gen) loadAt(pl *Place, t types.Type, h *HeapState) Val {
 	case *types.Struct:
 		var fs []Val
 		for i := 0; i < u.NumFields(); i++ {
-			fs = append(fs, g.loadAt(g.fieldPlace(pl.Ptr, t, i), u.Field(i).Type(), h))
+			fs = append(fs, g.loadAt(g.subPlace(pl, t, i), u.Field(i).Type(), h))
 		}
 		return g.mkStruct(t, fs)
 	case *types.Array:
@@ -258,6 +355,9 @@ func (g *Gen) loadAt(pl *Place, t types.Type, h *HeapState) Val {
 	}
 	s := g.sortOf(t)
 	switch pl.Kind {
+	case 5:
+		g.ensureKey(pl.Priv, s)
+		return Val{S: h.get(pl.Priv), Sort: s, GT: t}
 	case 1:
 		if _, isArr := pl.Struct.Field(pl.Idx).Type().Underlying().(*types.Array); !isArr && !g.P.FieldEscapes(pl.Named, pl.Idx) {
 			key := "F|" + typeKey(pl.Named) + "|" + fmt.Sprint(pl.Idx)
@@ -303,7 +403,7 @@ func (f *Frame) storeAt(pl *Place, v Val, t types.Type) {
 	case *types.Struct:
 		for i := 0; i < u.NumFields(); i++ {
 			fv := g.structField(Val{S: v.S, Sort: v.Sort, GT: t}, i)
-			f.storeAt(g.fieldPlace(pl.Ptr, t, i), fv, u.Field(i).Type())
+			f.storeAt(g.subPlace(pl, t, i), fv, u.Field(i).Type())
 		}
 		return
 	case *types.Array:
@@ -328,6 +428,10 @@ func (f *Frame) storeAt(pl *Place, v Val, t types.Type) {
 	}
 	s := g.sortOf(t)
 	switch pl.Kind {
+	case 5:
+		g.ensureKey(pl.Priv, s)
+		h.set(pl.Priv, v.S)
+		return
 	case 1:
 		if _, isArr := pl.Struct.Field(pl.Idx).Type().Underlying().(*types.Array); !isArr && !g.P.FieldEscapes(pl.Named, pl.Idx) {
 			key := "F|" + typeKey(pl.Named) + "|" + fmt.Sprint(pl.Idx)
@@ -416,9 +520,9 @@ func (f *Frame) indexAddr(in *ssa.IndexAddr) {
 	v := f.define(in, Val{S: ptr, Sort: "Ptr", GT: in.Type()})
 	if isLeafElem(et) {
 		an := g.freshConst("arr", "Ptr")
-		g.assume(eq(an, arr))
+		g.assumeDef(an, eq(an, arr))
 		in2 := g.freshConst("idx", g.idxSort())
-		g.assume(eq(in2, idx))
+		g.assumeDef(in2, eq(in2, idx))
 		v.Place = &Place{Kind: 2, Ptr: v.S, Base: an, Index: in2}
 	} else {
 		v.Place = &Place{Kind: 0, Ptr: v.S}
@@ -517,7 +621,7 @@ func (f *Frame) makeSlice(in *ssa.MakeSlice) {
 	f.safetyOblig("makeslice-len", in, and(g.icmp("<=", g.idxLit(0), ln, true), g.icmp("<=", ln, cp, true)))
 	p := f.newObjID()
 	pn := g.freshConst("mkslice", "Ptr")
-	g.assume(eq(pn, p))
+	g.assumeDef(pn, eq(pn, p))
 	if isLeafElem(st.Elem()) {
 		key := "E|" + typeKey(st.Elem())
 		g.ensureKey(key, g.sortOf(st.Elem()))
@@ -563,7 +667,7 @@ func (f *Frame) unop(in *ssa.UnOp) {
 		f.safetyOblig("nil-deref", in, not(eq(x.S, "nilptr")))
 		v := f.load(x, in.Type())
 		v = f.define(in, v)
-		g.assume(implies(f.curReach, g.typeInv(v, f.alloc())))
+		g.assumeDef(v.S, implies(f.curReach, g.typeInv(v, f.alloc())))
 	case token.NOT:
 		f.define(in, g.boolVal(not(x.S)))
 	case token.SUB:
